@@ -5,7 +5,7 @@ CONSTANTS
   Types = {"U", "R", "D"}
   Froms <- FromsThorough
   Untils = {0, 1, 2, 3, 4, 5, 6, 7, 8, 9}
-  Times = {0, 1, 2, 3, 4, 5, 6, 7, 8, 9, 10, 11, 12}
+  Times = {0, 1, 2, 3, 4, 5, 6, 7, 8, 9, 10, 11, 12, 2000000}
   Deltas = {2, 5, 7, 1000000}
   Decoys = {0, 1, 2, 3}
 INVARIANT WindowEffect
